@@ -25,6 +25,25 @@ the child's allele at position1/position2 equals the parental allele on the hapl
 a switch of the transmitted haplotype visible in the phased haplotypes inside a phase set is listed; list = traced vector.
 Correspondence on every run: retained / homozygous positions, traced super-reads of every column, and which calls
 the writer phased, against the model.
+
+Deepening (recombination costs, genotype likelihoods, table -> constraint table):
+  (c') the real `PedigreeDPTable` with `distrust_genotypes=True` on the same pedigree shapes with phred likelihoods (called /
+      peaked / small / flat / arbitrary): super-reads = model `getAllelesLik`, optimal cost = sum of the model's column costs
+      + the recombination costs charged for the reported transmission vector (also for the trusted instances of (c)); the
+      clauses proved for the likelihood variant (child entry = entry of the transmitted parental haplotype, tie flag
+      included; definite trio => no conflict among the output genotypes) on the real super-reads;
+  (e)  `recombination_cost_map`, `uniform_recombination_map`, `centimorgen_to_phred` on generated maps / rates / positions
+      (valid and invalid: exceptions by name) = the model's float instance, bit for bit (doubles are exchanged as exact
+      mantissa/exponent pairs); an independent reading of the numbers (exact piecewise-linear interpolation, Haldane's map
+      function via expm1, clamp at 1e-10 cM); the laws the integer-stage theorems assume (rounded phred antitone, cap);
+  (f)  `GenotypeLikelihoods.as_phred` with and without regulariser = model (`asPhredFloat`, `plToPhred`);
+  table stage: `subset_rows_by_position` + `genotypes_of` after `find_phaseable_variants` = model `constraintTable`.
+Pipeline additions: every traced family: recombination cost vector handed to the solver = model for the run's genetic
+map / --recombrate on the accessible positions; genotype vectors handed to the solver = `constraintTable` of the INPUT
+genotypes; traced optimal cost = model column costs + recombination costs.  `--distrust-genotypes` runs (PL / GL / no
+likelihoods, --default-gq, --gl-regularizer, --include-homozygous, genotyping errors): traced likelihoods = model from the
+input records; super-reads = `getAllelesLik`; written genotype and phase = `outputGt` / `writerPhase`; proved clauses on
+the OUTPUT genotypes.  The property text is about trusted genotypes: likelihood runs only produce model disagreements.
 """
 import itertools, json, os, shutil
 
@@ -32,7 +51,9 @@ RULE = ("(a) a genotype triple; (b) a family genotype table; (c) a pedigree DP i
         "genotypes, reads, recombination costs); (d) a CLI run reduced to (family, per-variant input genotypes, traced "
         "reads/transmission/super-reads, output phase). Non-trivial: (b) the table has a retained and a discarded variant; "
         "(c) at least one column with a heterozygous child, and either reads or a homozygous parent; (d) at least one child "
-        "call phased. Distinct = distinct JSON of the case")
+        "call phased; (c') a likelihood DP instance in which a genotype changes or a trio column carries a tie flag; (e) a "
+        "cost-map input whose result has >= 2 different costs; (d') a --distrust-genotypes run with a changed genotype and a "
+        "phased call. Distinct = distinct JSON of the case")
 MANIFEST = dict(
     text="Lean 4 theorems about a model of the pedigree partitions (compute_haplotype_to_partition_rec), the admissible "
          "allele assignments and get_alleles of the column cost computer, mendelian_conflict, find_phaseable_variants, the "
@@ -57,6 +78,14 @@ ASSUMPTIONS = [
     "bit 2k / 2k+1 of it belong to the k-th trio in PED order; bit value 1 selects the parent's FIRST haplotype (as the "
     "code does); a run in which the opposite convention held consistently would be reported as a model disagreement",
     "a phased parent/child pair 'in the same set' = same PS (HP prefix) in the output VCF",
+    "recombination cost vector: the float stage (interpolation, exp/log10 of this machine's libm, round half to even) is "
+    "modelled in Lean `Float` and compared with the code bit for bit, not reasoned about; the integer-stage theorems (cap, "
+    "antitone, shape, uniform formula) hold for every arithmetic whose `<` is a strict weak order and whose rounded phred "
+    "value is antitone — tested on doubles by the check, not proved for them",
+    "likelihood variant (--distrust-genotypes) is outside the property text: its clauses are proved on the model and "
+    "reported as model disagreements if the implementation deviates; 32-bit overflow of costs not modelled",
+    "table -> constraint table: variant positions of a chromosome strictly increasing (no duplicate positions); the VCF "
+    "reader (records -> VariantTable genotypes) remains the seam `hreader`",
 ]
 
 GT_LIST = {"0/0": [0, 0], "0/1": [1, 0], "1/1": [1, 1], "./.": [], ".": [], "1/0": [1, 0]}
@@ -112,8 +141,8 @@ def gen_table_case(rng):
             r = rng.random()
             col.append([] if r < 0.08 else rng.choice([[0, 0], [1, 0], [1, 0], [1, 1]]))
         tab.append(col)
-    return {"kind": "table", "members": members, "trios": trios, "tab": tab, "include_hom": False,
-            "positions": sorted(rng.sample(range(1, 20 * n + 2), n))}
+    return {"kind": "table", "members": members, "trios": trios, "tab": tab, "include_hom": rng.random() < 0.25,
+            "positions": sorted(rng.sample(range(1, 20 * n + 2), n)), "acc_seed": rng.randrange(1 << 30)}
 
 
 def do_table(ctx, batch, case):
@@ -153,6 +182,26 @@ def do_table(ctx, batch, case):
             ctx.disagree("c05.phaseable", case, impl, m)
     batch.add({"op": "c05.phaseable", "tab": tab, "trios": [[idx[f], idx[m], idx[c]] for f, m, c in case["trios"]],
                "include_hom": case["include_hom"]}, cb)
+    if "acc_seed" in case:
+        # the rest of the table stage: subset_rows_by_position(accessible positions), the assertion after it, and the genotype
+        # vectors `genotypes_of(sample)` that create_pedigree hands to Pedigree.add_individual
+        import random
+        r2 = random.Random(case["acc_seed"])
+        acc = sorted(p for p in keep_pos if r2.random() < 0.7)
+        if r2.random() < 0.1:
+            acc = sorted(set(acc) | {r2.choice(case["positions"])})        # possibly a position that was not retained
+        pvt.subset_rows_by_position(acc)
+        if len(pvt.variants) != len(acc):
+            impl2 = "AssertionError"
+        else:
+            impl2 = [[list(g.as_vector()) for g in pvt.genotypes_of(s)] for s in members]
+
+        def cb2(req, ans):
+            got = ans.get("genotypes") if isinstance(ans, dict) else ans
+            if got != impl2:
+                ctx.disagree("c05.constraint_table", dict(case, acc=acc), impl2, got)
+        batch.add({"op": "c05.constraint_table", "tab": tab, "trios": [[idx[f], idx[m], idx[c]] for f, m, c in case["trios"]],
+                   "include_hom": case["include_hom"], "var_pos": case["positions"], "acc": acc}, cb2)
 
 
 # ------------------------------------------------------------------------------------------------
@@ -222,11 +271,13 @@ def gen_dp_case(rng):
 
 
 def run_dp_impl(case):
-    from whatshap.core import Read, ReadSet, Pedigree, PedigreeDPTable, NumericSampleIds, Genotype
+    from whatshap.core import Read, ReadSet, Pedigree, PedigreeDPTable, NumericSampleIds, Genotype, PhredGenotypeLikelihoods
     nsi = NumericSampleIds()
     ped = Pedigree(nsi)
+    lik = "gls" in case
     for s in case["order"]:
-        ped.add_individual(s, [Genotype(list(g)) for g in case["gts"][s]], None)
+        ped.add_individual(s, [Genotype(list(g)) for g in case["gts"][s]],
+                           [PhredGenotypeLikelihoods(list(g)) for g in case["gls"][s]] if lik else None)
     for f, m, c in case["trios"]:
         ped.add_relationship(f, m, c)
     rs = ReadSet()
@@ -238,9 +289,10 @@ def run_dp_impl(case):
         rs.add(rd)
     rs.sort()
     try:
-        dp = PedigreeDPTable(rs, list(case["recomb"]), ped, False, list(case["positions"]))
+        dp = PedigreeDPTable(rs, list(case["recomb"]), ped, lik, list(case["positions"]))
         supers, tv = dp.get_super_reads()
         part = dp.get_optimal_partitioning()
+        cost = dp.get_optimal_cost()
     except RuntimeError as e:
         return {"err": "MendelianConflict" if "Mendelian conflict" in str(e) else "RuntimeError:" + str(e)}
     order_names = [r.name for r in rs]
@@ -248,11 +300,12 @@ def run_dp_impl(case):
     for k in range(len(case["order"])):
         a, b = supers[k][0], supers[k][1]
         sr.append([[va.position, va.allele, vb.allele] for va, vb in zip(a, b)])
-    return {"tv": list(tv), "partitioning": dict(zip(order_names, part)), "superreads": sr}
+    return {"tv": list(tv), "partitioning": dict(zip(order_names, part)), "superreads": sr, "cost": cost}
 
 
-def column_requests(order, trios, positions, gts_by_name, reads, partitioning, tv):
-    """model request `c05.columns` for all columns: entries from the reads under the reported bipartition"""
+def column_requests(order, trios, positions, gts_by_name, reads, partitioning, tv, gls_by_name=None, op=None):
+    """model request `c05.columns` (`c05.lik_columns` with likelihoods) for all columns: entries from the reads under the
+    reported bipartition"""
     idx = {s: i for i, s in enumerate(order)}
     cols = []
     for ci, pos in enumerate(positions):
@@ -261,8 +314,17 @@ def column_requests(order, trios, positions, gts_by_name, reads, partitioning, t
             for p, a, q in r["variants"]:
                 if p == pos:
                     entries.append([idx[r["sample"]], partitioning[r["name"]], a, q])
-        cols.append({"t": tv[ci], "gts": [gts_by_name[s][ci] for s in order], "entries": entries})
-    return {"op": "c05.columns", "size": len(order), "triples": [[idx[f], idx[m], idx[c]] for f, m, c in trios], "cols": cols}
+        col = {"t": tv[ci], "gts": [gts_by_name[s][ci] for s in order], "entries": entries}
+        if gls_by_name is not None:
+            col["gls"] = [gls_by_name[s][ci] for s in order]
+        cols.append(col)
+    return {"op": op or ("c05.columns" if gls_by_name is None else "c05.lik_columns"), "size": len(order),
+            "triples": [[idx[f], idx[m], idx[c]] for f, m, c in trios], "cols": cols}
+
+
+def transition_cost(recomb, tv):
+    """recombination part of the solver's objective (independent of the model's `transitionCost`)"""
+    return sum(bin(a ^ b).count("1") * recomb[c + 1] for c, (a, b) in enumerate(zip(tv, tv[1:])))
 
 
 class Conv:
@@ -357,8 +419,329 @@ def do_dp(ctx, batch, case):
         if ans != want:
             ctx.disagree("c05.columns", case, want, ans)
     batch.add(req, cb)
+    # the solver's optimum = sum of the model's column costs (get_cost of every column under the reported bipartition and
+    # transmission value) + the recombination costs charged for the reported transmission vector
+    creq = dict(req, op="c05.costs")
+
+    def cb_cost(req, ans, case=case, impl=impl):
+        if any(a is None for a in ans) or sum(ans) + transition_cost(case["recomb"], impl["tv"]) != impl["cost"]:
+            ctx.disagree("c05.costs(optimal cost = column costs + recombination costs)", case, impl["cost"],
+                         {"columns": ans, "recombination": transition_cost(case["recomb"], impl["tv"])})
+    batch.add(creq, cb_cost)
     if len(ctx.samples) < 3 and trios and case["reads"]:
         ctx.sample({"dp_case": case, "impl": impl})
+
+
+# ------------------------------------------------------------------------------------------------
+# (c') PedigreeDPTable with genotype likelihoods (--distrust-genotypes)
+# ------------------------------------------------------------------------------------------------
+
+def gen_gl(rng, gt, style):
+    """phred likelihoods [0/0, 0/1, 1/1] of one call"""
+    g = sum(gt)
+    if style == "called":          # as create_pedigree builds them without PL: default_gq everywhere, 0 at the call
+        q = rng.choice([5, 30, 30, 60])
+        return [0 if k == g else q for k in range(3)]
+    if style == "peaked":
+        return [0 if k == g else rng.randrange(1, 80) for k in range(3)]
+    if style == "small":           # small numbers: ties between genotypes and with read costs are frequent
+        x = [rng.randrange(0, 6) for _ in range(3)]
+        m = min(x)
+        return [v - m for v in x]
+    if style == "flat":
+        return [0, 0, 0]
+    x = [rng.randrange(0, 300) for _ in range(3)]
+    return x                        # not normalised (PhredGenotypeLikelihoods accepts any numbers)
+
+
+def gen_dplik_case(rng):
+    case = gen_dp_case(rng)
+    for _ in range(2):                # likelihoods matter most where reads compete with them: fewer read-less instances
+        if case["reads"] or rng.random() < 0.3:
+            break
+        case = gen_dp_case(rng)
+    case["kind"] = "dplik"
+    style = rng.choice(["called", "peaked", "peaked", "small", "small", "mixed", "mixed", "any"])
+    gls = {}
+    for s, col in case["gts"].items():
+        gls[s] = [gen_gl(rng, g, style if style != "mixed" else rng.choice(["called", "peaked", "small", "flat", "any"])) for g in col]
+    case["gls"] = gls
+    if rng.random() < 0.4:          # weak reads, so that the likelihoods decide
+        for r in case["reads"]:
+            for v in r["variants"]:
+                v[2] = rng.randrange(1, 8)
+    if rng.random() < 0.3:
+        case["recomb"] = [0] + [rng.choice([0, 1, 2, 3, 120]) for _ in case["positions"][1:]]
+    return case
+
+
+def lik_oracle(ctx, case, order, trios, positions, sr, tv, label):
+    """the clauses proved for the likelihood variant (`lik_child_entry_is_parent_entry`, `lik_output_genotypes_mendelian`),
+    evaluated on the real super-reads: the child's entry on haplotype 0 IS the father's entry on the haplotype selected by
+    bit 2k (allele or tie flag), likewise haplotype 1 / mother / bit 2k+1; hence the genotypes formed by definite
+    super-read alleles have no Mendelian conflict.  Outside the property text (trusted genotypes only) ⇒ reported as a
+    disagreement with the proved model, not as a property violation."""
+    idx = {s: i for i, s in enumerate(order)}
+    n_tie = n_def = 0
+    for k, (f, m, c) in enumerate(trios):
+        for ci, pos in enumerate(positions):
+            ca, fa, ma = sr[idx[c]][ci][1:], sr[idx[f]][ci][1:], sr[idx[m]][ci][1:]
+            want = [fa[1 - ((tv[ci] >> (2 * k)) & 1)], ma[1 - ((tv[ci] >> (2 * k + 1)) & 1)]]
+            if list(ca) != want:
+                ctx.disagree("lik_child_entry_is_parent_entry", case,
+                             {"where": label, "pos": pos, "child": c, "entry": list(ca), "father": list(fa), "mother": list(ma), "t": tv[ci]}, want)
+            if all(x in (0, 1) for x in list(ca) + list(fa) + list(ma)):
+                n_def += 1
+                if not feasible_child(list(fa), list(ma), list(ca)):
+                    ctx.disagree("lik_output_genotypes_mendelian", case, {"where": label, "pos": pos, "child": list(ca), "father": list(fa), "mother": list(ma)},
+                                 "no Mendelian conflict among definite super-read genotypes")
+            else:
+                n_tie += 1
+    return n_def, n_tie
+
+
+def do_dplik(ctx, batch, case):
+    impl = run_dp_impl(case)
+    ctx.evaluated()
+    order, trios, positions = case["order"], case["trios"], case["positions"]
+    ncols = len(positions)
+    ctx.dist("lik_members", len(order)); ctx.dist("lik_cols", ncols); ctx.dist("lik_reads", len(case["reads"]))
+    if "err" in impl:
+        # with likelihoods every allele assignment is a candidate: the solver must not raise
+        ctx.disagree("c05.lik_columns(no exception)", case, impl, "get_alleles defined for every column (getAllelesLik_isSome)")
+        return
+    n_def, n_tie = lik_oracle(ctx, case, order, trios, positions, impl["superreads"], impl["tv"], "PedigreeDPTable(distrust)")
+    ctx.dist("lik_trio_columns_with_tie", min(n_tie, 5))
+    changed = sum(1 for s in order for ci in range(ncols)
+                  if all(a in (0, 1) for a in impl["superreads"][order.index(s)][ci][1:])
+                  and sorted(impl["superreads"][order.index(s)][ci][1:], reverse=True) != list(case["gts"][s][ci]))
+    ctx.dist("lik_changed_genotypes", min(changed, 5))
+    # the writer's rule (genotype {a0, a1} where both alleles are definite, the input genotype otherwise) applied to the super
+    # reads: with a tie flag in the trio the OUTPUT genotypes can be in conflict although the input genotypes were not
+    idx = {s: i for i, s in enumerate(order)}
+    for f, m, c in trios:
+        for ci in range(ncols):
+            og = {}
+            for s in (f, m, c):
+                a = impl["superreads"][idx[s]][ci][1:]
+                og[s] = sorted(a, reverse=True) if all(x in (0, 1) for x in a) else list(case["gts"][s][ci])
+            if not feasible_child(og[f], og[m], og[c]) and feasible_child(case["gts"][f][ci], case["gts"][m][ci], case["gts"][c][ci]):
+                ctx.dist("lik_output_conflict_from_tie(input consistent)", True)
+                ctx.observe("likelihood variant: consistent input genotypes, a tie flag on a parent's untransmitted haplotype keeps the "
+                            "parent's input genotype while the child's is rewritten -> Mendelian conflict among the OUTPUT genotypes "
+                            "(outside C05's text; Lean witness in Props/C05.lean)")
+    if trios and (changed or n_tie):
+        ctx.nontrivial(json.dumps(case, sort_keys=True))
+    req = column_requests(order, trios, positions, case["gts"], case["reads"], impl["partitioning"], impl["tv"], gls_by_name=case["gls"])
+
+    def cb(req, ans):
+        want = [[[a, b] for _, a, b in [sr[ci] for sr in impl["superreads"]]] for ci in range(ncols)]
+        got = [a["alleles"] if isinstance(a, dict) else a for a in ans]
+        if got != want:
+            ctx.disagree("c05.lik_columns", case, want, got)
+            return
+        costs = [a["cost"] for a in ans]
+        if any(x is None for x in costs) or sum(costs) + transition_cost(case["recomb"], impl["tv"]) != impl["cost"]:
+            ctx.disagree("c05.lik_columns(optimal cost = column costs + recombination costs)", case, impl["cost"],
+                         {"columns": costs, "recombination": transition_cost(case["recomb"], impl["tv"])})
+    batch.add(req, cb)
+    batch.add({"op": "c05.transition_cost", "recomb": case["recomb"], "tv": impl["tv"]},
+              lambda req, ans: ans == transition_cost(case["recomb"], impl["tv"]) or
+              ctx.disagree("c05.transition_cost", case, transition_cost(case["recomb"], impl["tv"]), ans))
+
+
+
+# ------------------------------------------------------------------------------------------------
+# (e) recombination cost vector: recombination_cost_map / uniform_recombination_map / centimorgen_to_phred
+# ------------------------------------------------------------------------------------------------
+
+def fl(x):
+    """a finite double as the exact pair [m, e], value m * 2**e"""
+    import math
+    if x == 0:
+        return [0, 0]
+    f, e = math.frexp(x)
+    return [int(f * 2 ** 53), e - 53]
+
+
+def gen_recomb_case(rng):
+    n = rng.randrange(0, 9)
+    hi = rng.choice([60, 1000, 100000, 10 ** 7, 2 * 10 ** 8])
+    positions = sorted(rng.sample(range(0, hi), min(n, hi)))
+    r = rng.random()
+    if r < 0.04:
+        positions = [rng.randrange(hi) for _ in range(n)]                 # unsorted / duplicate positions
+    case = {"kind": "recomb", "positions": positions, "map": None, "rate": None}
+    if rng.random() < 0.6:
+        k = rng.randrange(0 if rng.random() < 0.02 else 1, 7)
+        mp = sorted(rng.sample(range(0, 2 * hi), k))
+        if mp and rng.random() < 0.1:
+            mp[0] = 0
+        cum, gm = 0.0, []
+        for p in mp:
+            gm.append([p, cum])
+            cum += rng.choice([0.0, 0.0, 1e-12, 1e-10, rng.random() * 1e-6, rng.random() * 1e-3, rng.random(), rng.random() * 5])
+        if rng.random() < 0.03:
+            rng.shuffle(gm)
+        if gm and rng.random() < 0.03:
+            gm[rng.randrange(len(gm))][1] = rng.random() * 3                 # a map that is not monotone
+        case["map"] = gm
+    else:
+        case["rate"] = rng.choice([1.26, 1.26, 0.01, 50.0, 5000.0, 100000.0, 1e6, 1e-9, 0.0, -1.0, rng.random() * 10])
+    return case
+
+
+def recomb_impl(case):
+    from whatshap.pedigree import recombination_cost_map, RecombinationMapEntry, UniformRecombinationCostComputer
+    try:
+        if case["map"] is not None:
+            return {"ok": [int(x) for x in recombination_cost_map([RecombinationMapEntry(p, c) for p, c in case["map"]], case["positions"])]}
+        return {"ok": [int(x) for x in UniformRecombinationCostComputer.uniform_recombination_map(case["rate"], case["positions"])]}
+    except (AssertionError, ValueError, ZeroDivisionError, IndexError, OverflowError) as e:
+        return {"err": type(e).__name__}
+
+
+def recomb_request(case):
+    if case["map"] is not None:
+        return {"op": "c05.recomb", "map": [[p, fl(c)] for p, c in case["map"]], "positions": case["positions"]}
+    return {"op": "c05.recomb", "rate": fl(case["rate"]), "positions": case["positions"]}
+
+
+def phred_real(d):
+    """-10 log10 of Haldane's recombination probability, computed without the cancellation of 1 - exp(-x)"""
+    import math
+    return -10.0 * math.log10(-math.expm1(-2.0 * d / 100.0) / 2.0)
+
+
+def recomb_meaning(case):
+    """what the numbers mean, independently of the code's float arithmetic: per interval the set of admissible costs
+    (piecewise-linear interpolation of the genetic map in exact rationals, extrapolation before the first map point from
+    (0, 0) and after the last with the average rate; clamp at 1e-10 cM; phred of Haldane's map function; rounding may go
+    either way within the noise of the code's `1 - exp(-x)`).  None where the input is outside that reading (unsorted
+    map or positions, decreasing map, non-positive rate, duplicates)."""
+    from fractions import Fraction as F
+    pos = case["positions"]
+    if any(b <= a for a, b in zip(pos, pos[1:])):
+        return None
+    if case["map"] is not None:
+        gm = case["map"]
+        if not gm or any(b[0] <= a[0] for a, b in zip(gm, gm[1:])) or any(b[1] < a[1] for a, b in zip(gm, gm[1:])) or gm[0][1] < 0:
+            return None
+        if gm[-1][0] == 0:
+            return None
+        if gm[0][0] == 0 and gm[0][1] != 0:
+            return None
+        pts = ([(0, F(0))] if gm[0][0] > 0 else []) + [(p, F(c)) for p, c in gm]
+
+        def cum(x):
+            if x > pts[-1][0]:
+                return pts[-1][1] + (x - pts[-1][0]) * pts[-1][1] / pts[-1][0]
+            for (p0, c0), (p1, c1) in zip(pts, pts[1:]):
+                if p0 <= x <= p1:
+                    return c0 + (x - p0) * (c1 - c0) / (p1 - p0)
+            return pts[0][1]          # a single map point at 0
+        ds = [max(float(cum(b) - cum(a)), 1e-10) for a, b in zip(pos, pos[1:])]
+    else:
+        if case["rate"] <= 0:
+            return None
+        ds = [float(F(b - a) * F(10) ** -6 * F(case["rate"])) for a, b in zip(pos, pos[1:])]
+    out = [(0, 0)]
+    for d in ds:
+        if d < 1e-10:
+            import math
+            ph = -10.0 * (math.log10(d) - 2.0)
+        else:
+            ph = phred_real(d)
+        tol = 2e-3 if d < 1e-7 else 1e-6
+        out.append((round(ph - tol), round(ph + tol)))
+    return out
+
+
+def do_recomb(ctx, batch, case):
+    impl = recomb_impl(case)
+    ctx.evaluated()
+    ctx.dist("recomb_kind", "genmap" if case["map"] is not None else "uniform")
+    ctx.dist("recomb_outcome", impl.get("err", "ok"))
+    if "ok" in impl and len(impl["ok"]) >= 3 and len(set(impl["ok"][1:])) >= 2:
+        ctx.nontrivial(json.dumps(case, sort_keys=True))
+    mean = recomb_meaning(case)
+    if mean is not None:
+        if "ok" not in impl or len(impl["ok"]) != len(mean) or any(not (lo <= v <= hi) for v, (lo, hi) in zip(impl["ok"], mean)):
+            ctx.disagree("c05.recomb(meaning: phred of Haldane's map function of the interpolated genetic distance)", case, impl, mean)
+        ctx.dist("recomb_meaning_checked", True)
+
+    def cb(req, ans):
+        if ans != impl:
+            ctx.disagree("c05.recomb", case, impl, ans)
+    batch.add(recomb_request(case), cb)
+
+
+def do_phred_laws(ctx, batch):
+    """the laws the integer-stage theorems assume of the arithmetic, tested on the float instance: the rounded phred value
+    never increases with the distance (`Lawful.phred_antitone`), the cap is round(phred(1e-10)) = what recombination_cost_map
+    charges for a zero genetic distance; the model's `c05.phred` = the real function on every distance"""
+    from whatshap.pedigree import centimorgen_to_phred, recombination_cost_map, RecombinationMapEntry
+    rng = ctx.rng
+    ds = sorted([10 ** rng.uniform(-13, 4) for _ in range(3000)] + [1e-10 * (1 + k * 1e-6) for k in range(-20, 21)]
+                + [1e-10, 9.999999999999e-11, 1.0000000000001e-10])
+    vals = [round(centimorgen_to_phred(d)) for d in ds]
+    ctx.evaluated()
+    for (a, ka), (b, kb) in zip(zip(ds, vals), zip(ds[1:], vals[1:])):
+        if kb > ka:
+            ctx.disagree("Lawful(floatOps).phred_antitone", {"kind": "phredlaw", "a": a, "b": b}, [ka, kb], "cost(b) <= cost(a) for a <= b")
+            break
+    cap = round(centimorgen_to_phred(1e-10))
+    flat = recombination_cost_map([RecombinationMapEntry(10, 0.5), RecombinationMapEntry(1000, 0.5)], [20, 30, 500])
+    if list(flat) != [0, cap, cap]:
+        ctx.disagree("recomb_zero_distance_costs_cap", {"kind": "phredlaw", "flat": True}, list(flat), [0, cap, cap])
+    ctx.extra["recombination_cost_cap"] = cap
+
+    def cb(req, ans):
+        got = [a.get("ok") for a in ans]
+        if got != vals:
+            k = next(i for i, (x, y) in enumerate(zip(got, vals)) if x != y)
+            ctx.disagree("c05.phred", {"kind": "phredlaw", "d": ds[k]}, vals[k], got[k])
+    batch.add({"op": "c05.phred", "d": [fl(d) for d in ds]}, cb)
+
+
+# ------------------------------------------------------------------------------------------------
+# (f) genotype likelihoods: GenotypeLikelihoods.as_phred / create_pedigree
+# ------------------------------------------------------------------------------------------------
+
+def gen_asphred_case(rng):
+    import struct
+    style = rng.random()
+    if style < 0.4:
+        pl = [rng.randrange(0, 130) for _ in range(3)]
+        lp, src = [x / -10 for x in pl], {"pl": pl}
+    elif style < 0.7:      # GL with one decimal, as htslib hands it over (float32)
+        lp = [struct.unpack("f", struct.pack("f", -rng.randrange(0, 120) / 10))[0] for _ in range(3)]
+        src = {}
+    else:
+        lp, src = [-rng.random() * rng.choice([1, 5, 30]) for _ in range(3)], {}
+    return dict({"kind": "asphred", "logp": lp, "reg": rng.choice([None, None, None, 0.0, 1e-6, 0.001, 0.01, 0.1, rng.random()])}, **src)
+
+
+def do_asphred(ctx, batch, case):
+    from whatshap.vcf import GenotypeLikelihoods
+    try:
+        ph = GenotypeLikelihoods(list(case["logp"])).as_phred(regularizer=case["reg"])
+        impl = [int(ph[g]) for g in ph.genotypes()]
+    except (ValueError, ZeroDivisionError, OverflowError, TypeError) as e:
+        impl = None
+    ctx.evaluated()
+    ctx.dist("asphred_regularizer", case["reg"] is not None)
+
+    def cb(req, ans):
+        if ans[0] != impl:
+            ctx.disagree("c05.as_phred", case, impl, ans[0])
+    batch.add({"op": "c05.as_phred", "calls": [[fl(x) for x in case["logp"]]], "reg": None if case["reg"] is None else fl(case["reg"])}, cb)
+    if "pl" in case and case["reg"] is None:
+        # integer stage: PL - min(PL)
+        def cb2(req, ans):
+            if ans[0] != impl:
+                ctx.disagree("c05.gl_int(plToPhred)", case, impl, ans[0])
+        batch.add({"op": "c05.gl_int", "pls": [case["pl"]]}, cb2)
 
 
 # ------------------------------------------------------------------------------------------------
@@ -372,6 +755,8 @@ def gen_cli_case(rng, mode):
     r = random.Random(sub)
     n_children = 2 if "quartet" in mode else 1
     recomb = mode.split("-")[1] == "recomb"
+    if mode.split("-")[1] == "lik":
+        return gen_cli_lik_case(r, mode, n_children, sub)
     if recomb:
         # recombining children, mostly heterozygous parents, deep error-free long reads (parents and children end up in one
         # phase set), cheap recombination: paternal AND maternal recombinations inside a phase set get detected and listed
@@ -410,12 +795,43 @@ def gen_cli_case(rng, mode):
     return {"kind": "cli", "mode": mode, "data": case, "args": args, "use_ref": r.random() < 0.5, "sub_seed": sub}
 
 
+def gen_cli_lik_case(r, mode, n_children, sub):
+    """`--distrust-genotypes`: PL/GL in the VCF (or none: default_gq), genotyping errors that reads can correct"""
+    from harness.gen import c05_ped as G, c05_lik as L
+    case = G.make_family_case(r, n_children=n_children, n_variants=(10, 22), contig_len=(2500, 4500), all_triples=False,
+                              missing_prob=0.03, conflict_prob=0.04, unrelated=r.random() < 0.2, n_recomb=(0, 2))
+    L.add_likelihoods(r, case, error_prob=r.choice([0.0, 0.1, 0.2]), no_pl_prob=r.choice([0.0, 0.15, 1.0]))
+    if r.random() < 0.5:
+        r.shuffle(case["samples"])
+    for s in case["samples"]:
+        d = r.choice([0, 0.5, 2, 4, 8])
+        if d:
+            G.add_reads(r, case, s, depth=d, read_len=(80, 300), paired_frac=r.choice([0.0, 0.3]), insert=(60, 400),
+                        noise=r.choice([0, 0, 0.05]))
+    args = ["--tag", r.choice(["PS", "PS", "HP"]), "--distrust-genotypes"]
+    if r.random() < 0.4:
+        args.append("--include-homozygous")
+    if r.random() < 0.4:
+        args += ["--default-gq", str(r.choice([5, 10, 60]))]
+    if r.random() < 0.3:
+        args += ["--gl-regularizer", str(r.choice([0.0, 0.001, 0.01, 0.1]))]
+    if r.random() < 0.2:
+        args.append("--no-genetic-haplotyping")
+    if r.random() < 0.35:
+        G.make_genmap(r, case)
+        args += ["--chromosome", "chr1"]
+    else:
+        args += ["--recombrate", str(r.choice([0.01, 1.26, 50, 5000]))]
+    args += ["--internal-downsampling", str(r.choice([4, 9, 15]))]
+    return {"kind": "cli", "mode": mode, "data": case, "args": args, "use_ref": r.random() < 0.5, "sub_seed": sub}
+
+
 def run_cli(ctx, batch, case):
-    from harness.gen import sim, c05_ped as G
+    from harness.gen import sim, c05_ped as G, c05_lik as L
     d = os.path.join(ctx.workdir(), "cli")
     shutil.rmtree(d, ignore_errors=True)
     try:
-        paths = G.write_case(case["data"], d)
+        paths = L.write_case(case["data"], d) if case["data"].get("pl") else G.write_case(case["data"], d)
         out = os.path.join(d, "out.vcf")
         args = ["phase", "-o", out, "--ped", paths["ped"]] + list(case["args"])
         if "genmap" in paths:
@@ -436,10 +852,13 @@ def run_cli(ctx, batch, case):
         except Exception as e:      # the output of a successful run must be a readable VCF
             ctx.fail(f"output VCF of whatshap phase cannot be parsed: {type(e).__name__}: {e}", case, key="output-vcf-unreadable")
             return
-        rows = read_recombination_list(ctx, case, rl)
-        for n in ([case["data"]["twin"]] if case["data"].get("twin") else []) + [case["data"]["contig"]]:
-            check_cli(ctx, batch, case, samples, [r for r in recs if r["chrom"] == n], [r for r in inrecs if r["chrom"] == n],
-                      [t for t in trace if t["chromosome"] == n], rows)
+        if "--distrust-genotypes" in case["args"]:
+            check_cli_lik(ctx, batch, case, samples, recs, inrecs, trace)
+        else:
+            rows = read_recombination_list(ctx, case, rl)
+            for n in ([case["data"]["twin"]] if case["data"].get("twin") else []) + [case["data"]["contig"]]:
+                check_cli(ctx, batch, case, samples, [r for r in recs if r["chrom"] == n], [r for r in inrecs if r["chrom"] == n],
+                          [t for t in trace if t["chromosome"] == n], rows)
     finally:
         shutil.rmtree(d, ignore_errors=True)
 
@@ -634,6 +1053,8 @@ def check_cli(ctx, batch, case, samples, recs, inrecs, trace, rows=None):
             if not set(t["accessible_positions"]) <= keep_pos:
                 ctx.disagree("c05.phaseable(accessible within retained)", case, t["accessible_positions"], sorted(keep_pos))
         batch.add({"op": "c05.phaseable", "tab": tab, "trios": [[fidx[f], fidx[m], fidx[c]] for f, m, c in trios], "include_hom": False}, cb_ph)
+        check_traced_recomb(ctx, batch, case, t)
+        check_traced_table(ctx, batch, case, t, tab, pos_list, [[fidx[f], fidx[m], fidx[c]] for f, m, c in trios], False)
         sr = [[[a[0], a[1], b[1]] for a, b in zip(t["superreads"][s][0]["variants"], t["superreads"][s][1]["variants"])] for s in fam]
         ids = t["numeric_sample_ids"]
         name_of = {ids[s]: s for s in fam}
@@ -647,6 +1068,13 @@ def check_cli(ctx, batch, case, samples, recs, inrecs, trace, rows=None):
                 if ans != want:
                     ctx.disagree("c05.columns(trace)", case, want, ans)
             batch.add(req, cb_sr)
+
+            def cb_cost(req, ans, t=t):
+                rc = transition_cost(t["recombination_costs"], t["transmission_vector"])
+                if any(a is None for a in ans) or sum(ans) + rc != t["cost"]:
+                    ctx.disagree("c05.costs(trace: optimal cost = column costs + recombination costs)", case, t["cost"],
+                                 {"columns": ans, "recombination": rc})
+            batch.add(dict(req, op="c05.costs"), cb_cost)
         # super-read level oracle too (all positions, not only those the writer phased)
         superread_oracle(ctx, case, fam, trios, acc, t["genotypes"], sr, tv, "whatshap phase (trace)")
         # the reported transmission: --recombination-list
@@ -675,6 +1103,179 @@ def check_cli(ctx, batch, case, samples, recs, inrecs, trace, rows=None):
                     "gt": {s: data["gt"][s][:8] for s in data["samples"]}})
 
 
+def option_value(args, name, default, conv=float):
+    return conv(args[args.index(name) + 1]) if name in args else default
+
+
+def check_traced_table(ctx, batch, case, t, tab, pos_list, trios_idx, include_hom):
+    """the genotype vectors handed to the solver (trace: `pedigree.genotype(sample, column)`) = the model's table stage
+    (find_phaseable_variants -> subset_rows_by_position(accessible positions) -> add_individual) on the INPUT genotypes"""
+    fam = t["family"]
+    want = [[list(g) for g in t["genotypes"][s]] for s in fam]
+
+    def cb(req, ans, want=want):
+        ctx.validated()
+        if not isinstance(ans, dict) or ans.get("genotypes") != want:
+            ctx.disagree("c05.constraint_table(trace)", case, want, ans if not isinstance(ans, dict) else ans.get("genotypes"))
+            return
+        if [pos_list[i] for i in ans["rows"]] != list(t["accessible_positions"]):
+            ctx.disagree("c05.constraint_table(rows = accessible positions)", case, t["accessible_positions"], [pos_list[i] for i in ans["rows"]])
+    batch.add({"op": "c05.constraint_table", "tab": tab, "trios": trios_idx, "include_hom": include_hom, "var_pos": pos_list,
+               "acc": t["accessible_positions"]}, cb)
+
+
+def check_traced_recomb(ctx, batch, case, t):
+    """the vector handed to the solver (trace) = the model's cost map of the accessible positions, for the genetic map /
+    recombination rate of this run"""
+    data = case["data"]
+    acc = t["accessible_positions"]
+    if data.get("genmap"):
+        rc = {"kind": "recomb", "positions": acc, "map": [[p, float(repr(c))] for p, _, c in data["genmap"]], "rate": None}
+    else:
+        rc = {"kind": "recomb", "positions": acc, "map": None, "rate": option_value(case["args"], "--recombrate", 1.26)}
+    got = [int(x) for x in t["recombination_costs"]]
+    ctx.dist("cli_recombination_cost_values", min(len(set(got[1:])), 6))
+
+    def cb(req, ans, got=got):
+        ctx.validated()
+        if ans != {"ok": got}:
+            ctx.disagree("c05.recomb(trace)", case, got, ans)
+    batch.add(recomb_request(rc), cb)
+    mean = recomb_meaning(rc)
+    if mean is not None and (len(mean) != len(got) or any(not (lo <= v <= hi) for v, (lo, hi) in zip(got, mean))):
+        ctx.disagree("c05.recomb(trace, meaning)", case, got, mean)
+
+
+def check_cli_lik(ctx, batch, case, samples, recs, inrecs, trace):
+    """`whatshap phase --ped --distrust-genotypes`: correspondence of every stage with the model (likelihoods handed to the
+    solver, phasable variants, recombination costs, super reads and optimal cost, genotypes and phase written) and the
+    clauses proved for the likelihood variant on the traced super reads and on the OUTPUT genotypes.  The property text is
+    about trusted genotypes: nothing here is reported as a property violation."""
+    from harness.gen import c05_ped as G
+    data, args = case["data"], case["args"]
+    genetic = "--no-genetic-haplotyping" not in args
+    include_hom = "--include-homozygous" in args
+    default_gq = option_value(args, "--default-gq", 30, int)
+    reg = option_value(args, "--gl-regularizer", None)
+    ctx.dist("cli_mode", case["mode"]); ctx.dist("cli_genmap", bool(data.get("genmap")))
+    ctx.dist("lik_cli_include_homozygous", include_hom); ctx.dist("lik_cli_regularizer", reg is not None)
+    sidx = {s: samples.index(s) for s in samples}
+    in_gt = {s: [GT_LIST_of(r["calls"][sidx[s]]["GT"]) for r in inrecs] for s in samples}
+    pos_list = [r["pos"] for r in inrecs]
+    vi_of = {p: i for i, p in enumerate(pos_list)}
+    phase = {s: G.decode_calls(recs, sidx[s]) for s in samples}
+    out_gt = {s: {r["pos"]: GT_LIST_of(r["calls"][sidx[s]].get("GT")) for r in recs} for s in samples}
+    n_changed = n_phased = 0
+    for t in trace:
+        fam, trios = t["family"], t["trios"]
+        want = sorted(tuple(tr) for tr in data["trios"] if tr[2] in fam)
+        if sorted(tuple(tr) for tr in trios) != want:
+            ctx.disagree("pedigree structure handed to the solver", case, trios, want)
+            continue
+        acc, tv = t["accessible_positions"], t["transmission_vector"]
+        fidx = {s: i for i, s in enumerate(fam)}
+        if len(fam) > 1:
+            check_traced_recomb(ctx, batch, case, t)
+        # ---- likelihoods handed to the solver = create_pedigree's, from the input records
+        calls, where = [], []
+        for s in fam:
+            for ci, p in enumerate(acc):
+                c = inrecs[vi_of[p]]["calls"][sidx[s]]
+                got = t["genotype_likelihoods"][s][ci]
+                got = None if got is None else [int(x) if float(x).is_integer() else x for x in got]
+                if c.get("GL") is not None:
+                    calls.append(({"calls": [[fl(float(x)) for x in c["GL"]]]}, got, (s, p)))
+                elif c.get("PL") is not None:
+                    calls.append(({"pls": [list(c["PL"])]}, got, (s, p)))
+                    if reg is None and got != [x - min(c["PL"]) for x in c["PL"]]:
+                        ctx.disagree("plToPhred(trace)", case, {"sample": s, "pos": p, "PL": list(c["PL"]), "handed to the solver": got},
+                                     [x - min(c["PL"]) for x in c["PL"]])
+                else:
+                    g = sum(in_gt[s][vi_of[p]])
+                    if got != [0 if k == g else default_gq for k in range(3)]:
+                        ctx.disagree("defaultGl(trace)", case, {"sample": s, "pos": p, "handed to the solver": got},
+                                     [0 if k == g else default_gq for k in range(3)])
+        for body, got, (s, p) in calls:
+            def cb_gl(req, ans, got=got, s=s, p=p):
+                if ans[0] != got:
+                    ctx.disagree("c05.as_phred(trace)", case, {"sample": s, "pos": p, "handed to the solver": got}, ans[0])
+            batch.add(dict(body, op="c05.as_phred", reg=None if reg is None else fl(reg)), cb_gl)
+        # ---- phasable variants
+        tab = [in_gt[s] for s in fam]
+
+        def cb_ph(req, ans, t=t):
+            ctx.validated()
+            keep_pos = {pos_list[i] for i in ans["keep"]}
+            hom_pos = sorted(pos_list[i] for i in ans["hom"])
+            if hom_pos != sorted(t["homozygous_positions"]):
+                ctx.disagree("c05.phaseable(homozygous_positions, distrust)", case, sorted(t["homozygous_positions"]), hom_pos)
+            if not set(t["accessible_positions"]) <= keep_pos:
+                ctx.disagree("c05.phaseable(accessible within retained, distrust)", case, t["accessible_positions"], sorted(keep_pos))
+        batch.add({"op": "c05.phaseable", "tab": tab, "trios": [[fidx[f], fidx[m], fidx[c]] for f, m, c in trios], "include_hom": include_hom}, cb_ph)
+        check_traced_table(ctx, batch, case, t, tab, pos_list, [[fidx[f], fidx[m], fidx[c]] for f, m, c in trios], include_hom)
+        # ---- super reads and optimal cost
+        sr = [[[a[0], a[1], b[1]] for a, b in zip(t["superreads"][s][0]["variants"], t["superreads"][s][1]["variants"])] for s in fam]
+        ids = t["numeric_sample_ids"]
+        name_of = {ids[s]: s for s in fam}
+        reads = [{"name": i, "sample": name_of[r["sample_id"]], "variants": r["variants"]} for i, r in enumerate(t["all_reads"])]
+        part = {i: p for i, p in enumerate(t["partitioning"] or [])}
+        gls = {s: [[int(x) for x in g] for g in t["genotype_likelihoods"][s]] for s in fam}
+        if acc and t["partitioning"] is not None:
+            req = column_requests(fam, trios, acc, t["genotypes"], reads, part, tv, gls_by_name=gls)
+
+            def cb_sr(req, ans, sr=sr, acc=acc, t=t):
+                want = [[[x[ci][1], x[ci][2]] for x in sr] for ci in range(len(acc))]
+                got = [a["alleles"] if isinstance(a, dict) else a for a in ans]
+                if got != want:
+                    ctx.disagree("c05.lik_columns(trace)", case, want, got)
+                    return
+                costs = [a["cost"] for a in ans]
+                rc = transition_cost(t["recombination_costs"], t["transmission_vector"])
+                if any(x is None for x in costs) or sum(costs) + rc != t["cost"]:
+                    ctx.disagree("c05.lik_columns(trace: optimal cost = column costs + recombination costs)", case, t["cost"],
+                                 {"columns": costs, "recombination": rc})
+            batch.add(req, cb_sr)
+        n_def, n_tie = lik_oracle(ctx, case, fam, trios, acc, sr, tv, "whatshap phase --distrust-genotypes (trace)")
+        ctx.dist("lik_cli_trio_columns_with_tie", min(n_tie // 3 * 3, 30))
+        # ---- the writer: genotype {a0, a1} where both super-read alleles are definite, input genotype otherwise; phased iff
+        # the position has a component, both alleles are definite and the (new) genotype is heterozygous
+        comps = {a: b for a, b in t["overall_components"]}
+        bad_writer = False
+        for s in fam:
+            srs = {x[0]: (x[1], x[2]) for x in sr[fidx[s]]}
+            for vi, pos in enumerate(pos_list):
+                g = in_gt[s][vi]
+                definite = pos in srs and all(a in (0, 1) for a in srs[pos])
+                og = sorted(srs[pos], reverse=True) if definite else g
+                n_changed += og != g
+                model = (comps[pos] + 1, tuple(srs[pos])) if (pos in comps and definite and sorted(og) == [0, 1]) else None
+                got = phase[s].get(pos)
+                n_phased += got is not None
+                if (got != model or out_gt[s].get(pos) != og) and not bad_writer:
+                    bad_writer = True
+                    ctx.disagree("writer(distrust): genotype and phase", case,
+                                 {"sample": s, "pos": pos, "input": g, "superread": srs.get(pos), "output_gt": out_gt[s].get(pos), "output_phase": got},
+                                 {"gt": og, "phase": model})
+        # ---- OUTPUT genotypes: where the six super-read alleles of a trio are definite the written genotypes have no conflict
+        for f, m, c in trios:
+            for ci, pos in enumerate(acc):
+                six = [x for who in (f, m, c) for x in sr[fidx[who]][ci][1:]]
+                if all(x in (0, 1) for x in six):
+                    gf, gm, gc = out_gt[f].get(pos), out_gt[m].get(pos), out_gt[c].get(pos)
+                    if gf and gm and gc and not feasible_child(gf, gm, gc):
+                        ctx.disagree("lik_output_genotypes_mendelian(output VCF)", case, {"pos": pos, "father": gf, "mother": gm, "child": gc},
+                                     "no Mendelian conflict among the written genotypes of a trio whose super-read alleles are definite")
+                elif pos in out_gt[c]:
+                    gf, gm, gc = out_gt[f].get(pos), out_gt[m].get(pos), out_gt[c].get(pos)
+                    if gf and gm and gc and not feasible_child(gf, gm, gc):
+                        ctx.dist("lik_cli_output_conflict_with_tie", True)
+                        ctx.observe("--distrust-genotypes: a trio's OUTPUT genotypes have a Mendelian conflict at a variant where a "
+                                    "super-read allele carries a tie flag (the tied member keeps its input genotype); outside C05's text")
+    ctx.dist("lik_cli_changed_genotypes", min(n_changed // 2 * 2, 20))
+    if n_changed and n_phased:
+        ctx.nontrivial(json.dumps([data["gt"], args, len(data["reads"])]))
+
+
 def GT_LIST_of(gt):
     alleles = gt[0] if gt else None
     if alleles is None or len(alleles) < 2 or any(a is None for a in alleles):
@@ -690,6 +1291,14 @@ def run_case(ctx, batch, case):
         do_table(ctx, batch, case)
     elif k == "dp":
         do_dp(ctx, batch, case)
+    elif k == "dplik":
+        do_dplik(ctx, batch, case)
+    elif k == "recomb":
+        do_recomb(ctx, batch, case)
+    elif k == "asphred":
+        do_asphred(ctx, batch, case)
+    elif k == "phredlaw":
+        do_phred_laws(ctx, batch)
     elif k == "cli":
         run_cli(ctx, batch, case)
     elif k == "conflict":
@@ -711,13 +1320,20 @@ def run(ctx):
         do_table(ctx, batch, gen_table_case(rng))
     for _ in range((2500 if ctx.quick else 30000) * ctx.scale):
         do_dp(ctx, batch, gen_dp_case(rng))
+    for _ in range((1500 if ctx.quick else 20000) * ctx.scale):
+        do_dplik(ctx, batch, gen_dplik_case(rng))
+    do_phred_laws(ctx, batch)
+    for _ in range((1500 if ctx.quick else 20000) * ctx.scale):
+        do_recomb(ctx, batch, gen_recomb_case(rng))
+    for _ in range((500 if ctx.quick else 5000) * ctx.scale):
+        do_asphred(ctx, batch, gen_asphred_case(rng))
     batch.flush()
     G.assert_overlay_in_use(ctx.overlay)
     modes = ["trio-noreads", "trio-sparse", "trio-deep", "trio-deep", "quartet-noreads", "quartet-sparse", "quartet-deep",
              "quartet-deep", "trio-sparse", "quartet-sparse", "trio-noreads-nogenetic", "trio-deep-nogenetic",
              "quartet-sparse-nogenetic", "trio-deep", "quartet-deep", "trio-sparse", "quartet-noreads", "trio-noreads",
              "quartet-deep-nogenetic", "quartet-sparse", "trio-recomb", "quartet-recomb", "trio-recomb", "quartet-recomb",
-             "trio-recomb", "quartet-recomb"]
+             "trio-recomb", "quartet-recomb", "trio-lik", "quartet-lik", "trio-lik", "quartet-lik", "trio-lik", "quartet-lik"]
     if not ctx.quick:
         modes = modes * 10
     for m in modes * ctx.scale:
